@@ -351,9 +351,9 @@ def getItemOld [Zero K] [Add K] (b : Basis K) (ix : Index) : Except IdxErr (Item
 
 `x = argmin ‖A x − b‖²` through the normal equations `Aᴴ A x = Aᴴ b`, solved exactly by
 Gauss–Jordan elimination; `none` when `Aᴴ A` is singular (dependent modes).  `conj` is complex
-conjugation (`id` for a real scalar).  The driver certifies every result it prints by checking
-`normalResidual conj b x y = 0` and `x.length = nmodes` exactly; `Properties/C14.lean` proves that
-these two facts make `x` a minimiser of the residual (`normal_eq_minimises`, `…_complex`), hence
+conjugation (`id` for a real scalar).  The driver certifies every result it prints by evaluating
+`certified conj b x y` (`normalResidual conj b x y = 0` and `x.length = nmodes`, exactly; defined
+below); `Properties/C14.lean` proves that `certified … = true` makes `x` a minimiser of the residual (`normal_eq_minimises`, `…_complex`), hence
 equal to `c` when `y = A·c` with independent modes (`lstsq_certified_recovers`), and that the
 result does not depend on the storage form (`coefficients_storage_independent`). -/
 
@@ -393,6 +393,13 @@ def lstsq [Zero K] [Add K] [Sub K] [Mul K] [Div K] [DecidableEq K] (conj : K →
 def normalResidual [Zero K] [Add K] [Sub K] [Mul K] (conj : K → K) (b : Basis K) (x y : List K) :
     List K :=
   matvec (adjRows conj b) (List.zipWith (· - ·) (matvec (toDense b) x) y)
+
+/-- The exact certificate the driver evaluates on the output `x` of `lstsq` before it answers
+`coefficients_for` with it: the normal equations hold exactly and `x` has one coefficient per
+mode.  `Properties/C14.lean` states the least-squares theorems about this very predicate. -/
+def certified [Zero K] [Add K] [Sub K] [Mul K] [DecidableEq K] (conj : K → K) (b : Basis K)
+    (x y : List K) : Bool :=
+  (normalResidual conj b x y).all (· == 0) && x.length == b.nmodes
 
 end
 
